@@ -243,7 +243,7 @@ func (cfg *Config) configFiles(c *core.Choices) {
 // genPod generates a pod; the expected invocation list follows the property text, from the structured choice
 // (not from parsing the annotation back).
 func genPod(c *core.Choices, cfg *Config, idx int, withPorts bool) *PodDef {
-	p := &PodDef{Idx: idx, NS: pick(c, []string{"default", "default", "kube-system", "prod"}), Annotations: map[string]string{}, Sandboxes: 1 + c.Choose(2)}
+	p := &PodDef{Idx: idx, NS: pick(c, []string{"default", "default", "kube-system", "prod"}), Annotations: map[string]string{}, Sandboxes: 1 + c.Choose(3)}
 	p.Name = fmt.Sprintf("%s-%d", pick(c, []string{"web", "db", "job", "hello-74597bd87c"}), idx)
 	if idx > 0 && c.Prob(1, 8) {
 		// same pod name as an earlier pod, in another namespace
@@ -490,6 +490,28 @@ func genLeftovers(c *core.Choices, cfg *Config) {
 				content += sep + "eth0"
 			}
 			cfg.Files = append(cfg.Files, FileDef{Path: fmt.Sprintf("%s/172.16.8.%d", ipDirs[c.Choose(2)], 10+i), Data: content})
+		}
+	}
+	// an earlier sandbox of one of the run's pods that died without a DEL and left its port file behind
+	for _, p := range cfg.Pods {
+		var ps []string
+		for _, pd := range p.Ports {
+			if pd.HostPort > 0 {
+				hip := ""
+				if pd.HostIP != "" {
+					hip = fmt.Sprintf(`"hostIP":%q,`, pd.HostIP)
+				}
+				ps = append(ps, fmt.Sprintf(`{"hostPort":%d,"containerPort":%d,"protocol":%q,%s"podName":%q,"podIP":"172.16.%d.250"}`, pd.HostPort, pd.ContainerPort, pd.Proto, hip, p.Name, 10+p.Idx))
+			}
+		}
+		if len(ps) == 0 || !c.Prob(1, 10) {
+			continue
+		}
+		lo := Leftover{ID: hexID(cfg.ScriptSeed, 800, p.Idx), State: pick(c, []string{"exited", "dead", "absent", "running"}), PodNS: p.NS, PodName: p.Name}
+		cfg.Leftovers = append(cfg.Leftovers, lo)
+		cfg.Files = append(cfg.Files, FileDef{Path: gcDirs[2] + "/" + lo.ID, Data: "[" + strings.Join(ps, ",") + "]"})
+		if c.Prob(1, 2) {
+			cfg.Files = append(cfg.Files, FileDef{Path: gcDirs[1] + "/" + lo.ID, Data: `[]`})
 		}
 	}
 	// non-container files
